@@ -9,6 +9,7 @@
 //   1 start end shape op        shape 0 TS<Int>, 1 TSS<Int>, 2 TSD<Int,TS<Int>>
 //                               op    0 if_then_else, 1 if_cmp,
 //                                     3 if_then_else with the consumers inside a nested graph (nested_<>),
+//                                     5 as 3, but the REF itself crosses the boundary and is dereferenced inside,
 //                                     4 if_then_else inside a nested graph, its result exported (no line 22)
 //   2 k t payload...            script of source k at time t:
 //                               k=0 selector (payload: one integer), k=1..3 targets, k=7 poke
@@ -259,6 +260,19 @@ namespace
             wire<Cons3<S>>(w, sel);
         }
     };
+    template <typename S>
+    struct BelowRef
+    {
+        static constexpr auto name = "hgv_below_ref";
+        static void           compose(Wiring &w, Port<REF<S>> ref, Port<TS<Int>> poke)
+        {
+            auto sel = ref.template as<S>();
+            wire<Cons0<S>>(w, sel);
+            wire<Cons1<S>>(w, sel, poke);
+            wire<Cons2<S>>(w, sel, poke);
+            wire<Cons3<S>>(w, sel);
+        }
+    };
     // the selection INSIDE a nested graph, its result passed out
     template <typename S>
     struct Choose
@@ -291,6 +305,16 @@ namespace
             auto cond = wire<SrcBool>(w, Int{0});
             auto sel  = wire<stdlib::if_then_else>(w, cond, a, b);
             nested_<Below<S>>(w, sel.template as<S>(), poke);
+            wire<RefWatch<S>>(w, sel);
+        }
+        else if (op == 5)
+        {
+            // the REFERENCE itself crosses the boundary; it is dereferenced inside the nested graph, so target
+            // ticks reach the inner consumers only through the child graph's own scheduling (graph.cpp
+            // nested_schedule_node_impl wakes the parent node)
+            auto cond = wire<SrcBool>(w, Int{0});
+            auto sel  = wire<stdlib::if_then_else>(w, cond, a, b);
+            nested_<BelowRef<S>>(w, sel.template as<REF<S>>(), poke);
             wire<RefWatch<S>>(w, sel);
         }
         else if (op == 4)
